@@ -3,9 +3,9 @@
 package main
 
 import (
-	"encoding/binary"
 	"bufio"
 	"bytes"
+	"encoding/binary"
 	"encoding/json"
 	"fmt"
 	"sort"
